@@ -415,7 +415,7 @@ def load_check(modname):
 
 def write_replay(prop, sig, case, msg):
     h = hashlib.sha1((canon(case) + repr(sig)).encode()).hexdigest()[:12]
-    d = os.path.join(VERIF, 'replays', 'found')
+    d = os.environ.get('VERIF_FOUND_DIR') or os.path.join(VERIF, 'replays', 'found')
     os.makedirs(d, exist_ok=True)
     path = os.path.join(d, '%s-%s.json' % (prop, h))
     with open(path, 'w') as f:
